@@ -95,7 +95,7 @@ def run_unit(tpath, repo_root, seed, build_dir=BUILD, tag='', canary=None, expan
         names = [f['function'] for f in r['functions']]
         missing = []
         for ex in ub.extracts:
-            if ex['kind'] != 'fn' and not any(t['rule'] == 'E9' for t in ex['transformations']):
+            if ex['kind'] != 'fn' and not any(t['rule'] in ('E9', 'E14') for t in ex['transformations']):
                 continue
             if ex.get('stub_of'):
                 continue
@@ -142,7 +142,7 @@ def obligations_for(ub, prop, r):
     for ex in ub.extracts:
         if prop not in ex['props'] or ex.get('stub_of'):
             continue
-        if ex['kind'] != 'fn' and not any(t['rule'] == 'E9' for t in ex['transformations']):
+        if ex['kind'] != 'fn' and not any(t['rule'] in ('E9', 'E14') for t in ex['transformations']):
             continue
         suffix = '::' + ex['alias']
         f = next((f for n, f in fnames.items() if n.endswith(suffix) or n.split('::', 1)[-1] == ex['alias']), None)
@@ -202,7 +202,7 @@ def known_findings():
 
 def write_replay(prop, m, unit_r, extra=None):
     os.makedirs(REPLAYS, exist_ok=True)
-    name = '%s-%s.json' % (prop, re.sub(r'[^A-Za-z0-9_.#-]+', '_', m['obligation'])[:120])
+    name = '%s-%s.json' % (prop, re.sub(r'[^A-Za-z0-9_.-]+', '_', m['obligation'])[:120])
     path = os.path.join(REPLAYS, name)
     ub = unit_r['ub']
     item = None
@@ -270,7 +270,7 @@ def check_property(prop, tier, seed, replay=None):
             continue
         trusted.extend(scan_trust(ub))
         for ex in ub.extracts:
-            if prop in ex['props'] and not ex.get('stub_of') and (ex['kind'] == 'fn' or any(t['rule'] == 'E9' for t in ex['transformations'])):
+            if prop in ex['props'] and not ex.get('stub_of') and (ex['kind'] == 'fn' or any(t['rule'] in ('E9', 'E14') for t in ex['transformations'])):
                 functions.append({'unit': n, 'function': ex['alias'], 'file': ex['file'], 'lines': [ex['src_line_start'], ex['src_line_end']],
                                   'sha256': ex['sha256'], 'woven_clauses': len(ex['clauses'])})
         transformations.extend({'unit': n, **t} for t in ub.transformations)
@@ -473,6 +473,7 @@ def main(argv):
     ap.add_argument('--unit')
     ap.add_argument('--show', action='store_true')
     ap.add_argument('--repo')
+    ap.add_argument('--pin', action='store_true', help='record the token sequences of every extracted item of the current tree (run on the pinned tree only)')
     a = ap.parse_args(argv)
     global REPO
     if a.repo:
@@ -480,6 +481,16 @@ def main(argv):
     seed = int(os.environ.get('VERIF_SEED', '0') or 0)
     if os.environ.get('VERIF_TIER'):
         a.tier = os.environ['VERIF_TIER']
+    if a.pin:
+        out = {}
+        for n, u in all_units().items():
+            ub = weave.build_unit(u['path'], REPO)
+            for ex in ub.extracts:
+                out['%s::%s' % (ex['file'], ex['path'])] = ex['tokens']
+        with open(os.path.join(CONTRACTS, 'pinned_tokens.json'), 'w') as f:
+            json.dump(out, f)
+        print('pinned %d items' % len(out))
+        return 0
     if a.unit:
         us = all_units()
         u = us.get(a.unit) or next((v for k, v in us.items() if k.startswith(a.unit)), None)
